@@ -60,7 +60,7 @@ class {name}({base}):
         return self.secret[:1]
 
     @property
-    @Field(dependencies=['age'], no_output=lambda v: v < 3)
+    @Field(dependencies=['age'], no_output=lambda v: v < 3, le=7)
     def bonus(self) -> int:
         return self.age * 2
 '''
